@@ -10,7 +10,8 @@ open Proto
   model's own output passes `Struct ∧ Exact`)
 * `c10valid L= A= D= B= RL=<labels> RA=<attr ids> RE=<i-j,…>` – the specification decided on the
   implementation's output: `T`, `F:<failed Struct clauses>` or `X:<only Exact fails>`
-* `c10sep n= D= B= X= Y= Z=` – `<mSeparated G>/<mSeparated (convMG G)>` (or `err:cyclic`)
+* `c10sep n= D= B= X= Y= Z=` – `<mSeparated G>/<mSeparated (convMG G)>/<mSeparated (G without
+  bidirected edges)>` (or `err:cyclic`)
 * `c10sepall n= D= B= RN=<k> RE=<i-j,…>` – second sentence for *all* disjoint X,Y,Z of original
   nodes: `mSeparated R = mSeparated G` where R is the implementation's result on indices
   (original nodes keep `0..n-1`); answer `ok:<queries>:<queries on which the bidirected edges matter>`
@@ -60,7 +61,8 @@ def handleSep : Handler := fun a =>
   let G := a.graph
   if MG.hasCycle G then "err:cyclic" else
   let X := a.nats "X"; let Y := a.nats "Y"; let Z := a.nats "Z"
-  fmtBool (MG.mSeparated G X Y Z) ++ "/" ++ fmtBool (MG.mSeparated (convMG G) X Y Z)
+  fmtBool (MG.mSeparated G X Y Z) ++ "/" ++ fmtBool (MG.mSeparated (convMG G) X Y Z) ++ "/" ++
+    fmtBool (MG.mSeparated { G with bi := [] } X Y Z)
 
 /-- all (X,Y,Z) with X,Y non-empty, pairwise disjoint, over the given nodes -/
 def queries : List Nat → List (List Nat × List Nat × List Nat)
